@@ -308,6 +308,8 @@ class Walk(object):
             return self.call(e, env)
         if isinstance(e, ast.IfExp):
             return self.ev(e.body if self.truth(self.ev(e.test, env)) else e.orelse, env)
+        if isinstance(e, ast.Tuple):
+            return ("tuple", tuple(self.ev(x, env) for x in e.elts))
         raise AnalysisError("MINMAX-TABLE: expression %s at line %s" % (pyfront.unparse(e)[:60], e.lineno))
 
     def identical(self, a, b):
@@ -399,6 +401,8 @@ class Walk(object):
                 if self.s["empty"]:
                     return a_const(-1)
                 return a_const(0) if self.s["idx0"] else a_var("J")
+            if m not in ("_to_key", "_findbucket", "_search", "minKey", "maxKey") and getattr(self, "tree_kind", None):
+                return self.inline(self.tree_kind, m, recv, args, e)       # a helper method of the tree class
         if isinstance(recv, tuple) and recv[0] == "leaf":
             if m == "_search" and args == [BOUND]:
                 if recv[1] == "N":
@@ -411,6 +415,8 @@ class Walk(object):
                 return args[0]            # already converted by the tree-level method
             if m in ("minKey", "maxKey"):
                 return self.inline(self.leaf_kind, m, recv, args, e)
+            if m not in ("_to_key", "_search"):
+                return self.inline(self.leaf_kind, m, recv, args, e)       # a helper method of the leaf class
         if isinstance(recv, tuple) and recv[0] == "child" and m in ("minKey", "maxKey"):
             return ("call", "CHILD[%s]" % recv[1], m, tuple(args))
         raise AnalysisError("MINMAX-TABLE: call %s at line %s" % (pyfront.unparse(e)[:60], e.lineno))
@@ -423,6 +429,7 @@ class Walk(object):
             raise AnalysisError("anchor vanished: %s.%s" % (kind, name))
         fn = r[1]
         w = Walk(self.tree, self.s, self.leaf_kind, self.depth + 1)
+        w.tree_kind = getattr(self, "tree_kind", None)
         return w.run(fn, recv, args)
 
     # -- statements ----------------------------------------------------------------
@@ -457,6 +464,13 @@ class Walk(object):
         if isinstance(st, ast.Assign) and len(st.targets) == 1 and isinstance(st.targets[0], ast.Name):
             env[st.targets[0].id] = self.ev(st.value, env)
             return
+        if isinstance(st, ast.Assign) and len(st.targets) == 1 and isinstance(st.targets[0], ast.Tuple) \
+                and all(isinstance(t, ast.Name) for t in st.targets[0].elts):
+            v = self.ev(st.value, env)
+            if isinstance(v, tuple) and v and v[0] == "tuple" and len(v[1]) == len(st.targets[0].elts):
+                for t, x in zip(st.targets[0].elts, v[1]):
+                    env[t.id] = x
+                return
         if isinstance(st, ast.AugAssign) and isinstance(st.target, ast.Name) and isinstance(st.op, (ast.Add, ast.Sub)):
             a, b = env[st.target.id], self.ev(st.value, env)
             if _is_int(a) and _is_int(b):
@@ -498,7 +512,7 @@ def _outcome(tree, kind, name, selfval, args, scen):
     r = pyfront.resolve(tree, kind, name)
     if r is None or r[1] is None:
         raise AnalysisError("anchor vanished: %s.%s" % (kind, name))
-    w = Walk(tree, scen)
+    w = Walk(tree, scen, leaf_kind=kind)
     try:
         v = w.run(r[1], selfval, args)
     except _Raise as x:
@@ -572,6 +586,7 @@ def _run_tree(tree, kind, leaf, m, args, scen):
     if r is None or r[1] is None:
         raise AnalysisError("anchor vanished: %s.%s" % (kind, m))
     w = Walk(tree, scen, leaf_kind=leaf)
+    w.tree_kind = kind
     try:
         v = w.run(r[1], TREE, args)
     except _Raise as x:
